@@ -4,7 +4,7 @@ LEVEL = 'exploration'
 RULE = ('generated struct types in two packages (exported and unexported types, 1-4 fields, 3-6 methods each drawn from prefix-related names Get/GetX/GetXY/get/getX/g/..., pointer and value receivers); '
         'every method is mocked in turn through the lookup path its kind needs (Struct.Method, Struct.ExportMethod, Pkg.ExportStruct.Method) with Apply (callback records the receiver) and with Return, '
         'then EVERY method of EVERY type is called on 3 instances through 5 call forms (value, pointer, interface, method value, method expression) and must be mocked / original as the model says; '
-        'generic G[T] over 6 instantiations of equal and different GC shape; two same-named packages in one builder; distinct = (receiver kind, exportedness, lookup path, mock form) cells')
+        'generic G[T] over 6 instantiations of equal and different GC shape; two same-named packages in one builder; value-receiver methods mocked through pointer instances and called through the forwarder (interface of *T, method expression): receiver pointer and arguments as passed; a mock whose builder was dropped, called after each of 40 collections with freed memory reused; distinct = (receiver kind, exportedness, lookup path, mock form) cells')
 
 
 def run(ctx):
@@ -27,3 +27,8 @@ def run(ctx):
     ctx.children(b, 1, run='TestC06SameName', timeout=300)
     ctx.children(b, 1, run='TestC06Retarget', timeout=300)
     ctx.children(b, 1, run='TestC06CallSites', timeout=300)
+    # value-receiver methods mocked through a pointer instance (the forwarder is the named method), both receiver kinds in
+    # one builder; and a mock whose builder was dropped, under collections (stays installed: own child)
+    ctx.children(b, 1, run='TestC06Wrappers', timeout=300)
+    chl = ctx.child(b, run='TestC06Lifetime', timeout=300, label='lifetime', env={'VERIF_C06_GCROUNDS': '40' if not ctx.thorough else '400'})
+    ctx.absorb(chl, what='TestC06Lifetime')
